@@ -296,21 +296,27 @@ func (r *MetricsResult) AggregateResults(parallelism int, aggregation structs.Ag
 func ExtractGroupByFieldsFromSeriesId(seriesId string, groupByFields []string) ([]string, []string) {
 	var groupKeyValuePairs []string
 	var values []string
+
+	// The seriesId is in the format of "metricName{key1:value1,key2:value2,..."
+	// Only the tags after the "{" are searched, and a field must be equal to a tag key:
+	// a field can also occur inside the metric name or as the suffix of another tag key.
+	tags := seriesId
+	if idx := strings.Index(seriesId, "{"); idx != -1 {
+		tags = seriesId[idx+1:]
+	}
+	tagPairs := strings.Split(tags, ",")
+
 	for _, field := range groupByFields {
-		start := strings.Index(seriesId, field+":")
-		if start == -1 {
-			continue
+		for _, tagPair := range tagPairs {
+			keyValue := strings.SplitN(tagPair, ":", 2)
+			if len(keyValue) != 2 || keyValue[0] != field {
+				continue
+			}
+			keyValuePair := fmt.Sprintf("%s:%s", field, keyValue[1])
+			values = append(values, keyValue[1])
+			groupKeyValuePairs = append(groupKeyValuePairs, keyValuePair)
+			break
 		}
-		start += len(field) + 1 // +1 to skip the ':'
-		end := strings.Index(seriesId[start:], ",")
-		if end == -1 {
-			end = len(seriesId)
-		} else {
-			end += start
-		}
-		keyValuePair := fmt.Sprintf("%s:%s", field, seriesId[start:end])
-		values = append(values, seriesId[start:end])
-		groupKeyValuePairs = append(groupKeyValuePairs, keyValuePair)
 	}
 	return groupKeyValuePairs, values
 }
